@@ -199,6 +199,9 @@ func runC10(c *Ctx) {
 	n := c.N(700, 100000)
 	for i := 0; i < n; i++ {
 		t := genTime(rng)
+		if i%50 == 7 {
+			t = util.EFITime{} // the all-zero timestamp
+		}
 		var dl int
 		switch rng.Intn(5) {
 		case 0:
